@@ -37,7 +37,7 @@ chrono = "0.4"
 rand = "0.8"
 
 [lints.rust]
-unexpected_cfgs = { level = "allow", check-cfg = ['cfg(kani)'] }
+unexpected_cfgs = { level = "allow", check-cfg = ['cfg(kani)', 'cfg(verif_assert)'] }
 
 [profile.dev]
 debug = false
@@ -305,33 +305,48 @@ def run_harnesses(names, jobs=16, timeout=3600, extra=()):
     return dict(results=results, log=log, wall_s=wall, build_error=None if m else True)
 
 
-def run_single(name, playback=True, timeout=1800):
-    """Re-run one failing harness alone to obtain the failed check descriptions
-    and the concrete counterexample."""
-    cmd = ['cargo', 'kani'] + KANI_FLAGS + ['--output-format', 'terse', '--harness', name]
-    if playback:
-        cmd += ['-Z', 'concrete-playback', '--concrete-playback=print']
+def _kani_once(cmd, env, timeout, mem_kb=None):
+    def lim():
+        import resource
+        cap = (mem_kb or MEM_CAP_KB) * 1024
+        resource.setrlimit(resource.RLIMIT_AS, (cap, cap))
     try:
-        p = subprocess.run(cmd, cwd=CRATE, env=_env(), stdout=subprocess.PIPE, stderr=subprocess.STDOUT,
-                           text=True, timeout=timeout, preexec_fn=_limit)
-        log = p.stdout
+        p = subprocess.run(cmd, cwd=CRATE, env=env, stdout=subprocess.PIPE, stderr=subprocess.STDOUT,
+                           text=True, timeout=timeout, preexec_fn=lim)
+        return p.stdout
     except subprocess.TimeoutExpired as e:
         log = e.stdout or ''
         if isinstance(log, bytes):
             log = log.decode('utf-8', 'replace')
-        log += '\nTIMEOUT'
         subprocess.run(['pkill', '-9', '-f', 'cbmc .*%s' % CRATE])
+        return log + '\nTIMEOUT'
+
+
+def run_single(name, playback=True, timeout=1800):
+    """Re-run one failing harness alone.  Pass 1 (regular output) decides fail / ok / undecided and
+    lists the failed checks; pass 2 (only after a failure) re-runs with --cfg verif_assert, which
+    also asserts the postcondition in the harness, so that Kani's concrete playback can print a
+    counterexample.  Pass 2 is best effort: without it the violation is reported with
+    no-failing-input-found."""
+    cmd = ['cargo', 'kani'] + KANI_FLAGS + ['--harness', name]
+    log = _kani_once(cmd, _env(), timeout)
     failed_checks = re.findall(r'Failed Checks: (.*)', log)
+    for m in re.finditer(r'Check \d+: (\S+)\s*\n\s*- Status: FAILURE\s*\n\s*- Description: "([^"]*)"(?:\s*\n\s*- Location: ([^\n]*))?', log):
+        failed_checks.append('%s: %s @ %s' % (m.group(1), m.group(2), (m.group(3) or '').strip()))
     status = 'fail' if 'VERIFICATION:- FAILED' in log else ('ok' if 'VERIFICATION:- SUCCESSFUL' in log else 'undecided')
     # a time-out, a solver abort (memory cap) or a missing list of failed checks is not a refutation
-    if status == 'fail' and (re.search(r'timed out|CBMC failed|TIMEOUT|out of memory|std::bad_alloc', log) or not failed_checks):
+    if status == 'fail' and (re.search(r'timed out|CBMC failed|TIMEOUT|out of memory|std::bad_alloc|Status: ERROR', log) or not failed_checks):
         status = 'undecided'
     vals = None
-    m = re.search(r'let concrete_vals: Vec<Vec<u8>> = vec!\[(.*?)\n\s*\];', log, re.S)
-    if m:
-        vals = []
-        for vm in re.finditer(r'vec!\[([0-9, ]*)\]', m.group(1)):
-            vals.append([int(x) for x in vm.group(1).replace(' ', '').split(',') if x != ''])
+    if status == 'fail' and playback:
+        env = _env()
+        env['RUSTFLAGS'] = (env.get('RUSTFLAGS', '') + ' --cfg verif_assert').strip()
+        log2 = _kani_once(cmd + ['-Z', 'concrete-playback', '--concrete-playback=print'], env, timeout, mem_kb=3 * MEM_CAP_KB)
+        m = re.search(r'let concrete_vals: Vec<Vec<u8>> = vec!\[(.*?)\n\s*\];', log2, re.S)
+        if m:
+            vals = []
+            for vm in re.finditer(r'vec!\[([0-9, ]*)\]', m.group(1)):
+                vals.append([int(x) for x in vm.group(1).replace(' ', '').split(',') if x != ''])
     return dict(status=status, failed_checks=failed_checks, concrete_vals=vals, log=log)
 
 
